@@ -585,6 +585,9 @@ pub fn parent(plan: &Plan, a: &ParentArgs) -> i32 {
         println!("KNOWN-FINDING: property={} sig={} hits={} e.g. {}", a.property, sig, n, ex);
     }
     let _ = known_list;
+    if other_clause > 0 {
+        eprintln!("note: {} oracle failures belonging to other properties were seen (see their own checks)", other_clause);
+    }
     let wall = start.elapsed().as_secs_f64();
     let engines: Vec<Value> = per_engine
         .iter()
